@@ -200,6 +200,14 @@ def replay_env(cases, work, envname, name):
     cs = [dict(c, id=f"{c['id']}.{envname}", tag=c["tag"] + f";env={envname}") for c in cases]
     # the files of a case are shared by all its configurations: the directory is named by the base id
     vs = vlib.replay(cs, work, env_extra=env, jobs=12, timeout_ms=30000, name=name)
+    # a dead or hung replayer process is attributed to the case that was running; before it is
+    # reported, the case is run once more on its own (the harness binary may have been rebuilt
+    # under a running check) - a crash that is the engine's own shows up again
+    redo = [i for i, v in enumerate(vs) if v["why"].startswith(("process ", "no verdict"))]
+    if redo:
+        again = vlib.replay([cs[i] for i in redo], work, env_extra=env, jobs=4, timeout_ms=30000, name=name + "-redo")
+        for i, v in zip(redo, again):
+            vs[i] = v
     return cs, [annotate(c, v) for c, v in zip(cs, vs)]
 
 
@@ -259,14 +267,14 @@ def selftest(cases, work):
 # (cfg, prefix, exhaustive?, quick count, thorough count): exhaustive slices are enumerated completely by
 # TLC and then sampled by seed; simulations draw `count` behaviours (TLC -simulate, seeded)
 FAMILIES = [
-    ("MC_Modules_mods1.cfg", "mods1", True, 100, 1600),
-    ("MC_Modules_rev.cfg", "rev", True, 16, 150),
-    ("MC_Modules_dep2.cfg", "dep2", True, 100, 1000),
-    ("MC_Modules_hist.cfg", "hist", True, 130, 1300),
-    ("MC_Modules_simsafe.cfg", "simsafe", False, 224, 1600),
-    ("MC_Modules_sim.cfg", "sim", False, 128, 900),
-    ("MC_Modules_simerrsafe.cfg", "simerrsafe", False, 64, 320),
-    ("MC_Modules_simerr.cfg", "simerr", False, 40, 200),
+    ("MC_Modules_mods1.cfg", "mods1", True, 100, 1000),
+    ("MC_Modules_rev.cfg", "rev", True, 16, 100),
+    ("MC_Modules_dep2.cfg", "dep2", True, 100, 700),
+    ("MC_Modules_hist.cfg", "hist", True, 130, 800),
+    ("MC_Modules_simsafe.cfg", "simsafe", False, 224, 1120),
+    ("MC_Modules_sim.cfg", "sim", False, 128, 640),
+    ("MC_Modules_simerrsafe.cfg", "simerrsafe", False, 64, 240),
+    ("MC_Modules_simerr.cfg", "simerr", False, 40, 160),
 ]
 
 
@@ -307,9 +315,9 @@ def run(tier, seed):
     r.notes.append(f"self-test: {n_mut} mutant oracles reported by the replayer")
 
     plan = [("dflt", cases)]
-    minl = rnd.sample(cases, int(len(cases) * (0.8 if tier == "thorough" else 0.35)))
+    minl = rnd.sample(cases, int(len(cases) * (0.6 if tier == "thorough" else 0.35)))
     plan.append(("minl", minl))
-    nj = rnd.sample(cases, min(len(cases), 120 if tier == "quick" else 1200))
+    nj = rnd.sample(cases, min(len(cases), 120 if tier == "quick" else 800))
     plan.append(("nojit", nj[: len(nj) // 2]))
     plan.append(("nojit-minl", nj[len(nj) // 2:]))
     for envname, cs in plan:
